@@ -25,6 +25,34 @@ pub fn build(prop: &str, draws: &[u16], tier: Tier) -> Case {
     // stream selection: 0..=5 main stream (shape / free-form), 6 quarantined (known-defect classes)
     let sel = s.pick(10);
     let (family, prog) = match sel {
+        // (C02 only) every thread also drops a handle of a `loom::sync::Arc` somewhere in its body; no
+        // drop is the last one (main keeps a handle until it has joined everybody), so like
+        // `fetch_sub(1, Release)` in std the drops order nothing: the must-set is that of the program
+        // without them
+        9 if prop == "C02" => ("arc-drops", {
+            let mut lp = params(tier, false);
+            lp.joins = true;
+            lp.late_spawn = false;
+            lp.max_threads = 2;
+            let mut p = if s.chance(2, 3) { gen::litmus_chain(&mut s, &lp) } else { gen::litmus(&mut s, &lp) };
+            p.arc_owner = vec![0];
+            let n = p.n_threads();
+            let first_spawn = p.threads[0].iter().position(|o| matches!(o, Op::Spawn { .. })).unwrap_or(0);
+            for t in (0..n).rev() {
+                p.threads[0].insert(first_spawn, Op::ArcClone { x: 0, to: t as u8 });
+            }
+            for t in 1..n {
+                // preferably between two operations of the thread
+                let len = p.threads[t].len();
+                let at = if len >= 2 && s.chance(3, 4) { 1 + s.pick(len - 1) } else { s.pick(len + 1) };
+                p.threads[t].insert(at, Op::ArcDrop { x: 0 });
+            }
+            let lo = p.threads[0].iter().rposition(|o| matches!(o, Op::Spawn { .. })).map(|i| i + 1).unwrap_or(0);
+            let hi = p.threads[0].iter().position(|o| matches!(o, Op::Join { .. })).unwrap_or(p.threads[0].len());
+            let at = lo + s.pick(hi.saturating_sub(lo) + 1);
+            p.threads[0].insert(at, Op::ArcDrop { x: 0 });
+            p
+        }),
         // (C03 only: the may-direction does not mind that loom forgets stores) main stores to the
         // flag location 5-8 times before spawning, so that the 7-entry store history of the location
         // wraps around while the threads run
@@ -72,6 +100,12 @@ pub fn build(prop: &str, draws: &[u16], tier: Tier) -> Case {
     // permuted; the explored outcome sets must coincide up to that permutation
     if prop == "C02" && c.prog.n_threads() >= 3 && s.chance(1, 3) {
         c.x.n = Some(1 + s.pick(5) as i64);
+    } else if prop == "C02" && s.chance(1, 8) {
+        // the exploration is stopped after k iterations (max_permutations) and resumed from the
+        // checkpoint file: what the two parts explore together must still be complete
+        c.x.mode = Some("resume".into());
+        c.x.k = Some(1 + s.pick(12) as i64);
+        c.x.c = Some([1, 1, 2, 3][s.pick(4)] as i64);
     }
     c
 }
@@ -106,7 +140,15 @@ pub fn eval(case: &Case, must: bool) -> Verdict {
     // per location can be read by anybody (the others are overwritten in happens-before order), so
     // the reference is computed for the program without them
     let reduced: Program;
-    let p = if case.family == "long-history" {
+    let p = if case.family == "arc-drops" {
+        let mut q = pfull.clone();
+        for th in q.threads.iter_mut() {
+            th.retain(|o| !matches!(o, Op::ArcClone { .. } | Op::ArcDrop { .. }));
+        }
+        q.arc_owner.clear();
+        reduced = q;
+        &reduced
+    } else if case.family == "long-history" {
         let mut q = pfull.clone();
         let first_spawn = q.threads[0].iter().position(|o| matches!(o, Op::Spawn { .. })).unwrap_or(0);
         let mut keep: Vec<bool> = vec![true; q.threads[0].len()];
@@ -140,7 +182,29 @@ pub fn eval(case: &Case, must: bool) -> Verdict {
     if !br.a.outcomes.is_subset(&br.u.outcomes) {
         return Verdict::skip("ORACLE-BUG: A not subset of U");
     }
-    let run = interp::collect(pfull, &case.cfg, false);
+    let run = if must && case.x.mode.as_deref() == Some("resume") {
+        let file = crate::script::scratch_file("c02ckpt");
+        let _ = std::fs::remove_file(&file);
+        let mut cfg = case.cfg.clone();
+        cfg.checkpoint_interval = case.x.c.unwrap_or(1).max(1) as usize;
+        let mut c1 = cfg.clone();
+        c1.max_permutations = Some(case.x.k.unwrap_or(1).max(1) as usize);
+        let mut r1 = interp::collect_with(pfull, &c1, interp::RunOpts { checkpoint_file: Some(file.clone()), ..Default::default() }, false);
+        let r2 = interp::collect_with(pfull, &cfg, interp::RunOpts { checkpoint_file: Some(file.clone()), ..Default::default() }, false);
+        let _ = std::fs::remove_file(&file);
+        v.label("stopped_and_resumed");
+        for (o, n) in r2.outcomes {
+            *r1.outcomes.entry(o).or_insert(0) += n;
+        }
+        r1.report.iters += r2.report.iters;
+        r1.report.capped = r2.report.capped;
+        if r1.report.panic.is_none() {
+            r1.report.panic = r2.report.panic;
+        }
+        r1
+    } else {
+        interp::collect(pfull, &case.cfg, false)
+    };
     v.loom_iters = run.report.iters as u64;
     if run.report.capped {
         return Verdict::skip("capped");
